@@ -101,6 +101,9 @@ class Closure:
         return self
 
 
+_SELF = object()        # the receiver itself, where a function is interpreted over "self.<field>" entries of its environment
+
+
 class AbsFile:
     """Abstract file handle: writes append to the evaluator's per-path content list; mode 'w' truncated it at open."""
     def __init__(self, key, mode):
@@ -164,7 +167,7 @@ class Evaluator:
             self._taken = []
             self.effects = []
             self._yields = []
-            self.files, self.opens = {}, []
+            self.files, self.opens = {k_: list(v_) for k_, v_ in getattr(self, "initial_files", {}).items()}, []
             a_copy, s_copy = copy.deepcopy(dict(args)), copy.deepcopy(dict(selfenv or {}))
             try:
                 v = self.call(func, a_copy, s_copy, 0)
@@ -198,6 +201,13 @@ class Evaluator:
 
     def invoke(self, obj, name, args, kws, depth, site=None):
         """Call method `name` of the abstract object."""
+        slot = obj.fields.get(name)
+        if isinstance(slot, tuple) and len(slot) == 3 and slot[0] == "bound" and isinstance(slot[1], AbsObj):
+            # an instance attribute shadows the method of the class (`self.annotate_class = self._variant` in the constructor)
+            obj, m = slot[1], slot[2]
+            if name in self.watch:
+                self.effects.append((name,) + tuple(freeze(a) for a in args) + tuple(sorted((k, freeze(x)) for k, x in kws.items())))
+            return self.call(m, self._bind(m, args, kws, name), None, depth + 1, selfobj=(None if m.is_static else obj))
         m = obj.cls.find_method(name)
         if m is None:
             raise Raised("AttributeError")
@@ -316,6 +326,10 @@ class Evaluator:
                 raise AnalysisError("statement Delete not supported by the table extractor (%s)" % f.loc(st))
         elif isinstance(st, ast.For):
             it = self.expr(st.iter, env, f, depth)
+            if isinstance(it, AbsFile):
+                it = self._file_lines(it, f.loc(st))
+            if isinstance(it, str):
+                it = list(it)
             if isinstance(it, dict):
                 it = tuple(it)
             if isinstance(it, (set, frozenset)) and all(isinstance(x, (str, int, float, bool)) for x in it):
@@ -385,6 +399,15 @@ class Evaluator:
             self.block(st.body, env, f, depth)
         else:
             raise AnalysisError("statement %s not supported by the table extractor (%s)" % (type(st).__name__, f.loc(st)))
+
+    def _file_lines(self, fh, where):
+        """What iterating a file opened for reading gives: the lines of the content the table put there, line ends kept."""
+        if not fh.mode.startswith("r"):
+            raise Raised("io.UnsupportedOperation")
+        content = self.files.get(fh.key, [])
+        if not all(isinstance(x, str) for x in content):
+            raise AnalysisError("reading a file whose content is not concrete text (%s)" % where)
+        return "".join(content).splitlines(True)
 
     def assign(self, t, v, env, f):
         if isinstance(t, ast.Name):
@@ -595,6 +618,10 @@ class Evaluator:
                     return
                 gen = e.generators[i]
                 it = self.expr(gen.iter, sub, f, depth)
+                if isinstance(it, AbsFile):
+                    it = self._file_lines(it, f.loc(e))
+                if isinstance(it, str):
+                    it = list(it)
                 if isinstance(it, dict):
                     it = tuple(it)
                 if isinstance(it, set):
@@ -710,8 +737,27 @@ class Evaluator:
 
     def callexpr(self, e, env, f, depth):
         fn = e.func
-        args = [self.expr(a, env, f, depth) for a in e.args]
-        kws = {k.arg: self.expr(k.value, env, f, depth) for k in e.keywords}
+        args = []
+        for a in e.args:
+            if isinstance(a, ast.Name) and a.id == "self" and "self" not in env and a is e.args[0]:
+                args.append(_SELF)          # Class.method(self, ...) in a function interpreted over its field environment
+                continue
+            if isinstance(a, ast.Starred):
+                sv_ = self.expr(a.value, env, f, depth)
+                if not isinstance(sv_, (list, tuple)):
+                    raise AnalysisError("*argument is not a concrete sequence (%s)" % f.loc(e))
+                args.extend(sv_)
+            else:
+                args.append(self.expr(a, env, f, depth))
+        kws = {}
+        for k in e.keywords:
+            kv_ = self.expr(k.value, env, f, depth)
+            if k.arg is None:
+                if not (isinstance(kv_, dict) and all(isinstance(x, str) for x in kv_)):
+                    raise AnalysisError("**argument is not a concrete dictionary (%s)" % f.loc(e))
+                kws.update(kv_)
+            else:
+                kws[k.arg] = kv_
         if isinstance(fn, ast.Call) and isinstance(fn.func, ast.Name) and fn.func.id == "getattr" and len(fn.args) == 2 \
                 and isinstance(fn.args[0], ast.Name) and fn.args[0].id == "self" and "self" not in env and f.cls is not None:
             nm_ = self.expr(fn.args[1], env, f, depth)
@@ -874,6 +920,10 @@ class Evaluator:
                     return None
                 if fn.attr in ("close", "flush"):
                     return None
+                if fn.attr == "read" and not args and not kws:
+                    return "".join(self._file_lines(fh, f.loc(e)))
+                if fn.attr == "readlines" and not args and not kws:
+                    return self._file_lines(fh, f.loc(e))
                 raise AnalysisError("file operation %s not modelled (%s)" % (fn.attr, f.loc(e)))
             if fn.attr == "from_iterable" and len(args) == 1 and isinstance(args[0], (list, tuple)) \
                     and all(isinstance(x, (list, tuple)) for x in args[0]):
@@ -980,6 +1030,28 @@ class Evaluator:
         if cs is not None and cs.kind == "super" and isinstance(env.get("self"), AbsObj) and len(cs.targets or []) == 1:
             t = cs.targets[0]
             return self.call(t, self._bind(t, args, kws, t.name), None, depth + 1, selfobj=env["self"])
+        if cs is None and isinstance(fn, ast.Name) and fn.id not in env:
+            # a call outside every function body (the value of a module constant): resolved by name in its module
+            r_ = self.ctx.p.resolve_name(f.module, fn.id)
+            if r_ is not None and r_[0] == "func" and not r_[1].vararg:
+                t = r_[1]
+                bound = dict(zip(t.bound_params, args))
+                bound.update(kws)
+                return self.call(t, bound, {}, depth + 1)
+        if cs is not None and cs.targets and cs.kind == "static" and len(cs.targets) == 1 and args:
+            from .resolve import is_unbound_method_call
+            if is_unbound_method_call(e, cs.targets[0]):
+                recv_, args = args[0], args[1:]
+                t = cs.targets[0]
+                if isinstance(recv_, AbsObj):
+                    return self.call(t, self._bind(t, args, kws, t.name), None, depth + 1, selfobj=recv_)
+                if recv_ is not _SELF and recv_ is not env.get("self"):
+                    raise AnalysisError("unbound method call on a receiver the table does not model (%s)" % f.loc(e))
+                selfenv = {k: v for k, v in env.items() if k.startswith("self.")}
+                try:
+                    return self.call(t, self._bind(t, args, kws, t.name), selfenv, depth + 1)
+                finally:
+                    env.update(selfenv)
         if cs is not None and cs.targets and cs.kind in ("func", "self", "static", "typed"):
             if len(cs.targets) != 1:
                 raise AnalysisError("table extractor: call %s has several targets" % ast.unparse(e)[:50])
@@ -1120,6 +1192,10 @@ class Evaluator:
             if isinstance(base, str) and isinstance(args[0], str):
                 return base.startswith(args[0]) if fn.attr == "startswith" else base.endswith(args[0])
             return self.decide(e)
+        if cs is not None and cs.kind == "ext" and isinstance(fn, ast.Name) and fn.id == "islice" and not kws and 2 <= len(args) <= 4 \
+                and isinstance(args[0], (list, tuple)) and all(a is None or type(a) is int for a in args[1:]):
+            import itertools as _it
+            return list(_it.islice(args[0], *args[1:]))
         if cs is not None and cs.kind == "ext" and isinstance(fn, ast.Name):
             if len(args) == 1 and not kws:
                 return (fn.id, freeze(args[0]))
